@@ -24,6 +24,13 @@ def conj_of(e: ast.AST) -> list[ast.AST]:
         for v in e.values:
             out.extend(conj_of(v))
         return out
+    if isinstance(e, ast.UnaryOp) and isinstance(e.op, ast.Not) and isinstance(e.operand, ast.BoolOp) and isinstance(e.operand.op, ast.Or):
+        # De Morgan: not (a or b)  ==  not a and not b
+        out = []
+        for v in e.operand.values:
+            nv = v.operand if isinstance(v, ast.UnaryOp) and isinstance(v.op, ast.Not) else ast.UnaryOp(op=ast.Not(), operand=v)
+            out.extend(conj_of(nv))
+        return out
     return [e]
 
 
@@ -116,12 +123,30 @@ def accept_conjuncts(f) -> list[str]:
 def check_predicate(idx: Index, rep: Report) -> None:
     r = rep.rule("C13.R1", "the removability predicate is the conjunction: all results unused ∧ not a terminator ∧ not a symbol ∧ effects known ∧ every effect is a read or an allocation of a value defined inside the op", floor=10)
 
+    pending: dict[str, list] = {}  # function -> [(f, conjs, pattern, key, why)]
+
     def req(f, conjs: list[str], pattern: str, key: str, why: str) -> None:
-        inst = f"{f.fq}:{key}"
-        if any(re.fullmatch(pattern, c) for c in conjs):
-            r.ok(inst, f"{f.loc} conjunct `{next(c for c in conjs if re.fullmatch(pattern, c))[:70]}`")
-        else:
-            r.fail(inst, Finding("C13.R1", f.fq, f"missing-conjunct:{key}", f"the conjunct `{key}` is missing from the predicate ({why}); found conjuncts: {[c[:50] for c in conjs]}", f.loc))
+        pending.setdefault(f.fq, []).append((f, conjs, pattern, key, why))
+
+    def flush() -> None:
+        """A required conjunct is reported missing only when every conjunct that IS there was understood (matches one
+        of the patterns this rule knows for the function): an unknown conjunct may well imply the missing one."""
+        for fq, items in pending.items():
+            f0, conjs0 = items[0][0], items[0][1]
+            known = [p_ for _, _, p_, _, _ in items] + EXTRA_KNOWN
+            unknown = [c for c in conjs0 if not any(re.fullmatch(p_, c) for p_ in known)]
+            for f, conjs, pattern, key, why in items:
+                inst = f"{f.fq}:{key}"
+                hit = next((c for c in conjs if re.fullmatch(pattern, c)), None)
+                if hit is not None:
+                    r.ok(inst, f"{f.loc} conjunct `{hit[:70]}`")
+                elif unknown:
+                    raise AnalysisError(f"{f.fq}: the conjunct `{key}` was not found, and the predicate contains conjunct(s) this rule does not understand: {[u[:60] for u in unknown]}")
+                else:
+                    r.fail(inst, Finding("C13.R1", f.fq, f"missing-conjunct:{key}", f"the conjunct `{key}` is missing from the predicate ({why}); found conjuncts: {[c[:50] for c in conjs]}", f.loc))
+        pending.clear()
+
+    EXTRA_KNOWN = [r"all\(\(.*\)\)"]
 
     f = idx.func(DCE, "is_trivially_dead")
     op = f.node.args.args[0].arg
@@ -239,6 +264,7 @@ def check_predicate(idx: Index, rep: Report) -> None:
         r.ok(f.fq + ":union", f"{f.loc} effects of all MemoryEffect traits are united")
     else:
         r.fail(f.fq + ":union", Finding("C13.R1", f.fq, "effects-not-united", "effects of all MemoryEffect traits must be accumulated", f.loc))
+    flush()
 
 
 def _guarded(f, call: ast.Call, pats: list[str]) -> list[str]:
